@@ -322,6 +322,13 @@ def _ds_str(v):
     return str(DS(float(v), auto_format=True))
 
 
+def _writes_fp(v):
+    """does NumContentItem.__init__ write Floating Point Value: for a Python float, and (fix D111) for an int whose
+    decimal string exceeds 16 characters, i.e. whenever the DS string may have been rounded"""
+    v = _pv(v)
+    return isinstance(v, float) or len(str(v)) > 16
+
+
 ENCODING_IO = ('file', 'file2', 'dcm', 'dcm_implicit')
 
 
@@ -569,10 +576,16 @@ def _value(rng):
     r = rng.random()
     if r < 0.12:
         return rng.randint(-5, 40)
-    if r < 0.22:        # ints up to 16 characters (written digit by digit; no Floating Point Value)
-        return rng.choice([123456789012, 10 ** 15 + 1, 2 ** 53 - 1, -999999999999999, 10 ** 12,
+    if r < 0.19:        # ints up to 16 characters (written digit by digit; no Floating Point Value)
+        return rng.choice([123456789012, 10 ** 15 + 1, 2 ** 53 - 1, -999999999999999, 10 ** 12, 9999999999999999,
                            rng.randint(10 ** 9, 10 ** 15), -rng.randint(10 ** 9, 10 ** 14)])
-    if r < 0.36:        # floats whose repr fits in a DS string
+    if r < 0.27:        # ints of MORE than 16 characters (D111: rounded DS string + Floating Point Value): exact doubles
+        #                 (2**60, multiples of a power of two) and ints that are no double at all (reported as float(v))
+        return rng.choice([-1234567890123456, 2 ** 60, -2 ** 60, 10 ** 16 + 2, 10 ** 16, -10 ** 15, 2 ** 53 + 2,
+                           12345678901234567, 2 ** 60 + 1, -9999999999999999, 10 ** 22, 3 ** 40,
+                           rng.randint(10 ** 16, 10 ** 19), -rng.randint(10 ** 15, 10 ** 18),
+                           rng.randint(2 ** 20, 2 ** 30) << rng.randint(30, 60)])
+    if r < 0.40:        # floats whose repr fits in a DS string
         return f(rng.choice([10.5, 42.25, 0.125, 7.0, 66.0, 2.5e-3, 1e-3, 100.0, -3.75, 0.1, 1e22, 1.5e300, 5e-324,
                              float(rng.randint(-50, 50)), rng.randint(-4000, 4000) / 8.0]))
     if r < 0.62:        # the classics: repr longer than 16 characters
@@ -1446,7 +1459,7 @@ def _apply_num_mutation(rep, m):
 def _num_shadow(c):
     """(Numeric Value as a number, Floating Point Value or None) of every measurement after the NUM mutations,
     from the definitions of the two attributes (PS3.3 C.18.1) - independent of the implementation"""
-    sh = [[[float(_pv(v)), float(_pv(v)) if isinstance(_pv(v), float) else None, _ds_str(v)] for _, v in g['meas']]
+    sh = [[[float(_pv(v)), float(_pv(v)) if _writes_fp(v) else None, _ds_str(v)] for _, v in g['meas']]
           for g in c['groups']]
     for name, gi, mi, other in c.get('nmuts', []):
         e = sh[gi][mi]
@@ -1912,7 +1925,7 @@ def coq_term(c):
         return f"(run_accessors {pre} {gs} {ocz(c['mname'])} {ocz(c['ename'])})"
     if k == 'acc_values':
         vals = [v for g in c['groups'] for _, v in g['meas']]
-        floats = sorted({_vk(v) for v in vals if isinstance(_pv(v), float)})
+        floats = sorted({_vk(v) for v in vals if _writes_fp(v)})     # values for which Floating Point Value is written
         # what DICOM encoding makes of Numeric Value: the number its DS string says (identity when not encoded)
         tbl = sorted({(_vk(v), vkey(float(_ds_str(v)))) for v in vals}) if c['io'] in ENCODING_IO else []
         return (f"(run_accessors_enc [{'; '.join(zlit(x) for x in floats)}] "
